@@ -9,6 +9,7 @@ from fractions import Fraction
 from typing import Any, Dict, List, Optional
 
 from . import anf, deps
+from . import AnalysisError as AnalysisError_
 from .anf import Rat, sym
 from .guards import G, TRUE, FALSE, g_and, g_or, g_not, atom as g_atom
 from .gvn import Event, Frame, NONE, Obj, PW, Unsupported, Vec, lift, mk_pw, vkey, cases_of
@@ -323,10 +324,48 @@ def _package_call(fr: Frame, fi, e, args, kwargs, guard, stmt):
     # opaque: keyed by the callee and *all* bound arguments (defaults included by name)
     names = [p for p in pos if p in amap] + sorted(k for k in amap if k not in pos)
 
-    def mk(*vals):
+    def mk(*vals, site=None):
         ra = _rat_args(fr, list(vals), {})
-        return anf.opaque("call:" + fi.qualname, *ra, array=any(x.is_array() for x in ra), extra=tuple(names))
-    return lift(mk, *[amap[n] for n in names])
+        return anf.opaque("call:" + fi.qualname, *ra, array=any(x.is_array() for x in ra), extra=tuple(names) + ((site,) if site else ()))
+    plain = lift(mk, *[amap[n] for n in names])
+    refined = _by_return_site(fr, fi, amap, names, mk) if fr.depth < ev.inline_depth and fi.qualname not in ev.no_inline else None
+    return refined if refined is not None else plain
+
+
+def _unknown(x) -> bool:
+    k = repr(x.key) if hasattr(x, "key") else repr(x)
+    return "#" in k or "@after" in k or "@list" in k or "@set" in k
+
+
+def _by_return_site(fr: Frame, fi, amap, names, mk):
+    """A callee whose loops cannot be summarised is still a function of its arguments.  When *which* return statement
+    is taken is decided exactly (by conditions free of anything a loop computes), the result is known per exit: an exit
+    returning None / a constant is that value, an exit returning something a loop computed is an opaque value of the
+    arguments tagged with the exit.  (`rankings = helper(..)` followed by `if rankings is None` is then decided.)"""
+    ev = fr.ev
+    if not all(isinstance(amap[n], (Rat, Vec, Obj)) for n in names):
+        return None
+    n_log, n_ev, keep_fresh = len(ev.summary_log), len(fr.events), ev.fresh
+    try:
+        res = ev.eval_function(fi, dict(amap), fr.depth + 1)
+    except (Unsupported, AnalysisError_, RecursionError):
+        del ev.summary_log[n_log:]
+        return None
+    del ev.summary_log[n_log:]
+    val = res.value()
+    cases = cases_of(val)
+    if len(cases) < 2 or any(_unknown(g) for g, _v in cases):
+        return None
+    exact = [(g, v) for g, v in cases if not _unknown(v)]
+    if not any(isinstance(v, Obj) or (isinstance(v, Rat) and v.is_const() is not None) for _g, v in exact):
+        return None
+    out = []
+    for k, (g, v) in enumerate(cases):
+        if isinstance(v, Obj) or (isinstance(v, Rat) and v.is_const() is not None):
+            out.append((g, v))
+        else:
+            out.append((g, mk(*[amap[n] for n in names], site=f"@exit{k}")))
+    return mk_pw(out)
 
 
 def range_items(ev, o):
